@@ -224,6 +224,13 @@ func (r *Run) Floor(name string, got int64, min int64) {
 	}
 }
 
+// ViolationCount returns the number of (unlisted) violations recorded so far.
+func (r *Run) ViolationCount() int {
+	r.mu.Lock()
+	defer r.mu.Unlock()
+	return len(r.viol)
+}
+
 // Inconclusive marks the run inconclusive for another reason (watchdog, checker timeout).
 func (r *Run) Inconclusive(reason string) {
 	r.mu.Lock()
